@@ -8,6 +8,9 @@ run-time invariants). Four clauses are shape, each a defect class the property t
   C04.B  the instruction budget cannot underflow (= C03.Z).
   C04.G  every insertion path of the open-addressing tables keeps a free slot, so probes terminate (= C13.G / C12.G).
   C04.R  native recursion over script data (eq / hash / partial_cmp / fmt / try_from over tables) is bounded.
+  C04.K  a lookup keyed by a script Value is never assumed to succeed: no unwrap/expect on the result of
+         CaoLangTable/CaoHashMap<Value, _> get / get_mut / remove. Value equality is not reflexive (NaN) and a table's hash
+         changes when it is mutated, so a key that was inserted need not be found again.
   C04.S  exhausting the value stack or call stack is mapped to the corresponding error, never unwrapped, in the VM's
          instruction handlers.
 """
@@ -195,6 +198,55 @@ def rule_r(F):
     return res
 
 
+LOOKUPS = ("get", "get_mut", "remove", "get_with_hint", "remove_with_hint", "get_mut_with_hint")
+PEEL = ("copied", "cloned", "map", "as_ref", "as_mut", "as_deref")
+ASSUME = ("unwrap", "expect", "unwrap_unchecked")
+
+
+def rule_k(F):
+    from cao.facts import hir_walk, hir_callee
+    from cao import hirutil as hu
+    res = []
+    lookups = 0
+    for f in F.fns:
+        if not f.hir or f.is_closure or f.raw.get("from_expansion") or "::tests::" in f.short or f.short.endswith("::tests"):
+            continue
+        assumed = set()
+        for x in hir_walk(f.hir["body"]):
+            if x.get("k") == "mcall" and x["name"] in ASSUME:
+                r = hu.strip_all(x["recv"])
+                while r is not None and r.get("k") == "mcall" and r["name"] in PEEL:
+                    r = hu.strip_all(r["recv"])
+                if r is not None:
+                    assumed.add(id(r))
+                    x["_assumes"] = r
+        n = 0
+        for x in hir_walk(f.hir["body"]):
+            if x.get("k") != "mcall" or x["name"] not in LOOKUPS:
+                continue
+            names = hir_callee(x)
+            cal = x.get("callee", {})
+            targs = (cal.get("resolved_args") or cal.get("args") or [])
+            if not any(("cao_lang_table::CaoLangTable::" in n_ or "hash_map::CaoHashMap::" in n_) for n_ in names):
+                continue
+            if any("hash_map::CaoHashMap::" in n_ for n_ in names) and not (targs and targs[0] == "value::Value"):
+                continue   # compile-time maps keyed by strings
+            lookups += 1
+            key = "C04/K/%s/lookup-by-value-not-assumed%s" % (f.name, "" if n == 0 else "#%d" % n)
+            n += 1
+            if id(x) in assumed:
+                res.append(bad("C04.K", key, f.loc(x["ln"]),
+                               "%s unwraps the result of a lookup keyed by a script Value: a row whose key is NaN (not equal to itself) "
+                               "or a table that was mutated after insertion (hashes by content) is stored but not found again, the unwrap "
+                               "panics inside run" % f.short))
+            else:
+                res.append(ok("C04.K", key, f.loc(x["ln"]), "lookup result is handled as an Option"))
+    if lookups < 3:
+        from cao.facts import AnchorMissing
+        raise AnchorMissing("lookups keyed by Value (found %d)" % lookups)
+    return res
+
+
 def rule_s(F):
     """In instruction handlers (vm::instr_execution::*, Vm::_run, Vm::binary_op): results of ValueStack::push /
     BoundedStack::push / Vm::stack_push are never unwrapped/expected (which would turn exhaustion into a panic)."""
@@ -268,5 +320,6 @@ RULES = [
     Rule("C04.B", rule_b, 1, "budget cannot underflow (shared with C03.Z)"),
     Rule("C04.G", rule_g, 3, "insertion paths keep a free slot (C12.G/C13.G): probes terminate"),
     Rule("C04.R", rule_r, 1, "recursion over script data is bounded"),
+    Rule("C04.K", rule_k, 8, "lookups keyed by script values are not assumed to succeed"),
     Rule("C04.S", rule_s, 20, "stack exhaustion is an error value in instruction handlers"),
 ]
